@@ -830,6 +830,72 @@ impl<'a, W: Write> YamlSerializer<'a, W> {
         Ok(())
     }
 
+    /// Write the key of an enum variant with data (`Variant:`) for the position the variant is in
+    /// and leave the serializer in value position, so that the payload (a newtype value, the
+    /// sequence of a tuple variant, the mapping of a struct variant) chooses its own layout.
+    /// The returned frame must be passed to [`Self::end_variant`] after the payload.
+    fn begin_variant(&mut self, variant: &str) -> Result<VariantFrame> {
+        // If we are the value of a mapping key, YAML forbids "key: Variant: value" inline.
+        // Emit the variant mapping on the next line indented one level. Also, do not insert
+        // a space after the colon when the value may itself be a mapping; instead, defer
+        // space insertion to the value serializer via pending_space_after_colon.
+        let was_map_value = self.pending_space_after_colon;
+        let anchored_key_depth = self.write_anchor_before_variant_key()?;
+        if was_map_value {
+            // consume the pending space request and start a new line
+            self.pending_space_after_colon = false;
+            if !self.at_line_start {
+                self.newline()?;
+            }
+            // When used as a mapping value, indent relative to the parent mapping's base,
+            // not the serializer's current depth (which may still be the outer level).
+            let base = self.current_map_depth.unwrap_or(self.depth);
+            self.write_indent(base + 1)?;
+            self.write_plain_or_quoted(variant)?;
+            // Write ':' without trailing space, then mark that a space may be needed
+            // if the following value is a scalar.
+            self.out.write_str(":")?;
+            self.pending_space_after_colon = true;
+            self.at_line_start = false;
+            // Do not let any inline-after-dash hint leak into the variant's inner value.
+            // After `Variant:`, the next node is in value position and must choose its own layout.
+            self.pending_inline_map = false;
+            // Ensure that if the value is another variant or a mapping/sequence,
+            // it indents under this variant label rather than the parent map key.
+            let prev_map_depth = self.current_map_depth.replace(base + 1);
+            return Ok(VariantFrame {
+                prev_map_depth: Some(prev_map_depth),
+            });
+        }
+        // Otherwise (top-level or sequence context).
+        if self.at_line_start {
+            self.write_indent(anchored_key_depth.unwrap_or(self.depth))?;
+        }
+        self.write_plain_or_quoted(variant)?;
+        // Write ':' without a space and defer spacing/newline to the value serializer.
+        self.out.write_str(":")?;
+        self.pending_space_after_colon = true;
+        self.at_line_start = false;
+        // Do not let SeqSer's "inline first key after dash" hint leak into the variant's inner value.
+        // Without this, a struct/map value can start as `Variant: a: 1`.
+        self.pending_inline_map = false;
+        // If this variant is inside a block sequence element (`- Variant:`), ensure the nested
+        // value indents under the variant label rather than aligning with the list indentation.
+        // SeqSer stores the dash's indentation depth in `after_dash_depth`.
+        let prev_map_depth = self
+            .after_dash_depth
+            .take()
+            .map(|d| self.current_map_depth.replace(d + 1));
+        Ok(VariantFrame { prev_map_depth })
+    }
+
+    /// Undo what [`Self::begin_variant`] changed for the payload of the variant.
+    fn end_variant(&mut self, frame: VariantFrame) {
+        if let Some(prev_map_depth) = frame.prev_map_depth {
+            self.current_map_depth = prev_map_depth;
+        }
+    }
+
     /// If an anchor is pending for an enum variant with data (`Variant: payload`), emit it before
     /// the variant key: the anchor belongs to the one-entry mapping, not to the payload.
     /// The anchor ends the current line; returns the depth at which the variant key must then be
@@ -1399,61 +1465,10 @@ impl<'a, 'b, W: Write> Serializer for &'a mut YamlSerializer<'b, W> {
         variant: &'static str,
         value: &T,
     ) -> Result<()> {
-        // If we are the value of a mapping key, YAML forbids "key: Variant: value" inline.
-        // Emit the variant mapping on the next line indented one level. Also, do not insert
-        // a space after the colon when the value may itself be a mapping; instead, defer
-        // space insertion to the value serializer via pending_space_after_colon.
-        let was_map_value = self.pending_space_after_colon;
-        let anchored_key_depth = self.write_anchor_before_variant_key()?;
-        if was_map_value {
-            // consume the pending space request and start a new line
-            self.pending_space_after_colon = false;
-            if !self.at_line_start {
-                self.newline()?;
-            }
-            // When used as a mapping value, indent relative to the parent mapping's base,
-            // not the serializer's current depth (which may still be the outer level).
-            let base = self.current_map_depth.unwrap_or(self.depth);
-            self.write_indent(base + 1)?;
-            self.write_plain_or_quoted(variant)?;
-            // Write ':' without trailing space, then mark that a space may be needed
-            // if the following value is a scalar.
-            self.out.write_str(":")?;
-            self.pending_space_after_colon = true;
-            self.at_line_start = false;
-            // Do not let any inline-after-dash hint leak into the variant's inner value.
-            // After `Variant:`, the next node is in value position and must choose its own layout.
-            self.pending_inline_map = false;
-            // Ensure that if the value is another variant or a mapping/sequence,
-            // it indents under this variant label rather than the parent map key.
-            let prev_map_depth = self.current_map_depth.replace(base + 1);
-            let res = value.serialize(&mut *self);
-            self.current_map_depth = prev_map_depth;
-            return res;
-        }
-        // Otherwise (top-level or sequence context).
-        if self.at_line_start {
-            self.write_indent(anchored_key_depth.unwrap_or(self.depth))?;
-        }
-        self.write_plain_or_quoted(variant)?;
-        // Write ':' without a space and defer spacing/newline to the value serializer.
-        self.out.write_str(":")?;
-        self.pending_space_after_colon = true;
-        self.at_line_start = false;
-        // Do not let SeqSer's "inline first key after dash" hint leak into the variant's inner value.
-        // Without this, a struct/map value can start as `Variant: a: 1`.
-        self.pending_inline_map = false;
-        // If this variant is inside a block sequence element (`- Variant:`), ensure the nested
-        // value indents under the variant label rather than aligning with the list indentation.
-        // SeqSer stores the dash's indentation depth in `after_dash_depth`.
-        if let Some(d) = self.after_dash_depth.take() {
-            let prev_map_depth = self.current_map_depth.replace(d + 1);
-            let res = value.serialize(&mut *self);
-            self.current_map_depth = prev_map_depth;
-            res
-        } else {
-            value.serialize(&mut *self)
-        }
+        let frame = self.begin_variant(variant)?;
+        let res = value.serialize(&mut *self);
+        self.end_variant(frame);
+        res
     }
 
     // -------- Collections --------
@@ -1589,18 +1604,10 @@ impl<'a, 'b, W: Write> Serializer for &'a mut YamlSerializer<'b, W> {
         variant: &'static str,
         _len: usize,
     ) -> Result<Self::SerializeTupleVariant> {
-        let anchored_key_depth = self.write_anchor_before_variant_key()?;
-        if self.at_line_start {
-            self.write_indent(anchored_key_depth.unwrap_or(self.depth))?;
-        }
-        self.write_plain_or_quoted(variant)?;
-        self.out.write_str(":\n")?;
-        self.at_line_start = true;
-        let depth_next = anchored_key_depth.unwrap_or(self.depth) + 1;
-        Ok(TupleVariantSer {
-            ser: self,
-            depth: depth_next,
-        })
+        // `Variant:` followed by the fields as a sequence in value position.
+        let frame = self.begin_variant(variant)?;
+        let seq = self.serialize_seq(Some(_len))?;
+        Ok(TupleVariantSer { seq, frame })
     }
 
     fn serialize_map(self, _len: Option<usize>) -> Result<Self::SerializeMap> {
@@ -1718,50 +1725,18 @@ impl<'a, 'b, W: Write> Serializer for &'a mut YamlSerializer<'b, W> {
         variant: &'static str,
         _len: usize,
     ) -> Result<Self::SerializeStructVariant> {
-        // If we are the value of a mapping key, YAML forbids keeping a nested mapping
-        // on the same line (e.g., "key: Variant:"). Move the variant mapping to the next line
-        // indented under the parent mapping's base depth.
-        let _was_inline_value = !self.at_line_start;
-        let was_map_value = self.pending_space_after_colon;
-        let anchored_key_depth = self.write_anchor_before_variant_key()?;
-        if was_map_value {
-            // Value position after a map key: start the variant mapping on the next line.
-            self.pending_space_after_colon = false;
-            if !self.at_line_start {
-                self.newline()?;
-            }
-            // Indent the variant name one level under the parent mapping.
-            let base = self.current_map_depth.unwrap_or(self.depth) + 1;
-            self.write_indent(base)?;
-            self.write_plain_or_quoted(variant)?;
-            self.out.write_str(":\n")?;
-            self.at_line_start = true;
-            // Fields indent one more level under the variant label.
-            let depth_next = base + 1;
-            return Ok(StructVariantSer {
-                ser: self,
-                depth: depth_next,
-            });
-        }
-        // Otherwise (top-level or sequence context), emit the variant name at current depth.
-        if self.at_line_start {
-            self.write_indent(anchored_key_depth.unwrap_or(self.depth))?;
-        }
-        self.write_plain_or_quoted(variant)?;
-        self.out.write_str(":\n")?;
-        self.at_line_start = true;
-        // Default indentation for fields under a plain variant line.
-        let mut depth_next = anchored_key_depth.unwrap_or(self.depth) + 1;
-        // If this variant follows a list dash, indent two levels under the dash (one for the element, one for the mapping).
-        if let Some(d) = self.after_dash_depth.take() {
-            depth_next = d + 2;
-            self.pending_inline_map = false;
-        }
-        Ok(StructVariantSer {
-            ser: self,
-            depth: depth_next,
-        })
+        // `Variant:` followed by the fields as a mapping in value position.
+        let frame = self.begin_variant(variant)?;
+        let map = self.serialize_map(Some(_len))?;
+        Ok(StructVariantSer { map, frame })
     }
+}
+
+/// What `YamlSerializer::begin_variant` changed for the payload of an enum variant and
+/// `YamlSerializer::end_variant` restores.
+struct VariantFrame {
+    /// `Some(previous current_map_depth)` if it was replaced for the payload.
+    prev_map_depth: Option<Option<usize>>,
 }
 
 // ------------------------------------------------------------
@@ -2141,22 +2116,21 @@ impl<'a, 'b, W: Write> SerializeTupleStruct for TupleSer<'a, 'b, W> {
 /// Created by `YamlSerializer::serialize_tuple_variant` to emit the variant name
 /// followed by a block sequence of fields.
 pub struct TupleVariantSer<'a, 'b, W: Write> {
-    /// Parent YAML serializer.
-    ser: &'a mut YamlSerializer<'b, W>,
-    /// Target indentation depth for the fields.
-    depth: usize,
+    /// The fields, written as a sequence in the value position after `Variant:`.
+    seq: SeqSer<'a, 'b, W>,
+    /// State to restore once the variant is complete.
+    frame: VariantFrame,
 }
 impl<'a, 'b, W: Write> SerializeTupleVariant for TupleVariantSer<'a, 'b, W> {
     type Ok = ();
     type Error = Error;
 
     fn serialize_field<T: ?Sized + Serialize>(&mut self, value: &T) -> Result<()> {
-        self.ser.write_indent(self.depth)?;
-        self.ser.out.write_str("- ")?;
-        self.ser.at_line_start = false;
-        value.serialize(&mut *self.ser)
+        SerializeSeq::serialize_element(&mut self.seq, value)
     }
-    fn end(self) -> Result<()> {
+    fn end(mut self) -> Result<()> {
+        self.seq.finish()?;
+        self.seq.ser.end_variant(self.frame);
         Ok(())
     }
 }
@@ -2319,7 +2293,15 @@ impl<'a, 'b, W: Write> SerializeMap for MapSer<'a, 'b, W> {
         Ok(())
     }
 
-    fn end(self) -> Result<()> {
+    fn end(mut self) -> Result<()> {
+        self.finish()
+    }
+}
+
+impl<'a, 'b, W: Write> MapSer<'a, 'b, W> {
+    /// Close the mapping (the body of `SerializeMap::end`; also used by the serializer of
+    /// struct variants, which writes its fields as a mapping).
+    fn finish(&mut self) -> Result<()> {
         if self.flow {
             self.ser.out.write_str("}")?;
             if self.ser.in_flow == 0 {
@@ -2382,10 +2364,10 @@ impl<'a, 'b, W: Write> SerializeStruct for MapSer<'a, 'b, W> {
 /// Created by `YamlSerializer::serialize_struct_variant` to emit the variant name
 /// followed by a block mapping of fields.
 pub struct StructVariantSer<'a, 'b, W: Write> {
-    /// Parent YAML serializer.
-    ser: &'a mut YamlSerializer<'b, W>,
-    /// Target indentation depth for the fields.
-    depth: usize,
+    /// The fields, written as a mapping in the value position after `Variant:`.
+    map: MapSer<'a, 'b, W>,
+    /// State to restore once the variant is complete.
+    frame: VariantFrame,
 }
 impl<'a, 'b, W: Write> SerializeStructVariant for StructVariantSer<'a, 'b, W> {
     type Ok = ();
@@ -2396,20 +2378,11 @@ impl<'a, 'b, W: Write> SerializeStructVariant for StructVariantSer<'a, 'b, W> {
         key: &'static str,
         value: &T,
     ) -> Result<()> {
-        let text = scalar_key_to_string(&key, self.ser.yaml_12)?;
-        self.ser.write_indent(self.depth)?;
-        self.ser.out.write_str(&text)?;
-        // Defer spacing/newline decision to the value serializer similarly to map entries.
-        self.ser.out.write_str(":")?;
-        self.ser.pending_space_after_colon = true;
-        self.ser.at_line_start = false;
-        // Ensure nested mappings/collections used as this field's value indent relative to this struct variant.
-        let prev_map_depth = self.ser.current_map_depth.replace(self.depth);
-        let result = value.serialize(&mut *self.ser);
-        self.ser.current_map_depth = prev_map_depth;
-        result
+        SerializeStruct::serialize_field(&mut self.map, key, value)
     }
-    fn end(self) -> Result<()> {
+    fn end(mut self) -> Result<()> {
+        self.map.finish()?;
+        self.map.ser.end_variant(self.frame);
         Ok(())
     }
 }
